@@ -1104,7 +1104,13 @@ def check_tables(ck, gvh, oracle, tier, corpus, tag="t"):
                 imdiff.append({"case": lines[i].split(" ", 1)[1], "impl": list(gc), "model_IM": imf, "spec_S": sf})
     for op, lst in fails.items():
         lst.sort()
-        for _, i, gc, imf, sf in lst[:2]:
+        seen, pick = set(), []
+        for e in lst:
+            sig = (e[2][0] if e[2][0].startswith("err:") else e[2][0][:3], e[4][0][:3], e[2][1] == e[4][1])
+            if sig not in seen and len(pick) < 4:
+                seen.add(sig)
+                pick.append(e)
+        for _, i, gc, imf, sf in pick:
             ck.violation("table.%s differs from the manual's definition on %s: Go %s, spec %s (%d failing cases)"
                          % (op, lines[i].split(" ", 1)[1][:200], gc[:3], sf, len(lst)),
                          {"kind": "Go!=S", "engine": "strlib", "case": lines[i].split(" ", 1)[1], "impl": list(gc), "model_IM": imf,
@@ -1243,7 +1249,15 @@ def check_strings(ck, gvh, oracle, cases, tag="s"):
         if not isinstance(lst, list):
             continue
         lst.sort()
-        for _, i, g, im, s in lst[:2]:     # the smallest failing inputs of each function
+        # the smallest failing input of each kind of difference (Go outcome class / spec outcome class), at most 4 per function,
+        # so that two different defects of one function are both shown
+        seen, pick = set(), []
+        for e in lst:
+            sig = (e[2] if e[2].startswith("err:") else e[2][:3], e[4][:3])
+            if sig not in seen and len(pick) < 4:
+                seen.add(sig)
+                pick.append(e)
+        for _, i, g, im, s in pick:
             ck.violation("string.%s differs from the manual's definition: %s -> Go %s, spec %s (%d failing cases for this function)"
                          % (fn, lines[i].split(" ", 1)[1], g, s, len(lst)),
                          {"kind": "Go!=S", "engine": "strlib", "case": lines[i].split(" ", 1)[1], "impl": g, "model_IM": im, "spec_S": s,
